@@ -736,7 +736,12 @@ func (sys *System) Close(ctx *Context) error {
 // function.
 func (sys *System) newLocation(ctx *Context, name string) (*Location, error) {
 
+	// ensureStorage assumes we hold the sys lock: concurrent first
+	// requests would otherwise race on sys.storage (and could end
+	// up on two different storage instances).
+	sys.Lock()
 	storage, err := sys.ensureStorage(ctx)
+	sys.Unlock()
 	if err != nil {
 		return nil, err
 	}
